@@ -57,14 +57,26 @@ META = {
             "Coq compares every run of the sequence with the fresh run of that device (P_C15_history; the model is a "
             "pure function, C15_sequence_is_pointwise, so this is model = implementation for sequences) and "
             "evaluates no-leak / families-assigned on the later runs, (g) FRAME of merge: the operands of every "
-            "merge() call are compared, in Coq, with what they were before the call (P_C15_frame).",
+            "merge() call are compared, in Coq, with what they were before the call (P_C15_frame), (h) REGISTRY "
+            "LAYOUTS: half of the executor cases run over a tree of registries joined with include() (one level, two "
+            "levels, two siblings), match_short_name drawn per registry, device names with a domain part or bare; the "
+            "rule masks keep their meaning (a registry matching full names gets mask + escaped domain), so the "
+            "flat executor model with the same match table must agree and every clause above is evaluated on these "
+            "runs too. Proved for the registry model Model/MeshNested.v (all trees, all matchers): inclusion is "
+            "flattening -- the pairs found through the tree are those of the flat pre-order rule list with each rule's "
+            "own normalisation, as a multiset and, per neighbour, as a list (C15_include_is_flattening, _pair); that "
+            "flat lookup is Mesh.lookup_direct for the per-registry-normalised match relation "
+            "(C15_flat_lookup_is_mesh_lookup); matched pairs always carry the caller's original names "
+            "(C15_include_keeps_names).",
     "technique": "Coq induction over rule-match lists, keyed accumulators and nested model values; vm_compute "
                  "differential check of the Gallina model against the real code",
     "note": "partial: the mirror theorems are per rule match (after the keyed merge of several handlers the two ends "
             "group by different keys: statement kept in Proofs/MeshProofs.v, checked by the correspondence only); "
             "handler and matcher are abstract pure functions in the theorems -- name-template regexes, Left/Right "
             "filters, adaptix type coercion of PeerOptions and the storage adapter (stubbed per the "
-            "annet.storage.Device contract 'add or return existing') are exercised by the correspondence only",
+            "annet.storage.Device contract 'add or return existing') are exercised by the correspondence only; "
+            "lookup_global (registry.device rules) is not generated; the link between the nested-registry theorems and "
+            "the executor theorems is the match table (the executor model takes the flat rule list)",
 }
 
 # ---------------------------------------------------------------------------------------------
@@ -419,6 +431,7 @@ OPTION_POOL = SESSION_OPTS + ["rr_client", "next_hop_self", "passive", "as_overr
 
 
 def mask_n(mask, name):
+    name = name.split(".", 1)[0]          # masks are written for the host name without its domain part (see add_layout)
     rx, has_n = MASKS[mask]
     m = _re.fullmatch(rx, name)
     if not m:
@@ -610,6 +623,43 @@ def gen_exec_case(rng, big: bool) -> dict:
     return {"devices": devs, "ports": ports, "rules": rules}
 
 
+LAYOUT_SHAPES = {"flat": [-1], "include": [-1, 0], "include2": [-1, 0, 1], "fork": [-1, 0, 0]}
+DOMAIN = ".dc1.example.net"
+
+
+def add_layout(rng, case) -> dict:
+    """The same case over a TREE of registries (MeshRulesRegistry.include, one and two levels, two siblings),
+    match_short_name drawn per registry, device names with or without a domain part.  The rule masks stay written
+    for the short host name; c15_exec.make_registry appends the domain for registries that match full names, so the
+    rule -> device-pair relation (the match table handed to the Coq model) is the same as for the flat registry:
+    inclusion is flattening, name normalisation is per registry and never changes the names a matched pair carries
+    (Model/MeshNested.v, C15_include_*)."""
+    shape = rng.choice(["flat", "include", "include", "include2", "fork"])
+    parent = LAYOUT_SHAPES[shape]
+    domain = DOMAIN if rng.random() < 0.7 else ""
+    short = [rng.random() < 0.5 for _ in parent]
+    if shape != "flat" and domain and rng.random() < 0.5:
+        short[0] = True                   # the including registry normalises, the included ones as drawn
+    n = len(case["rules"])
+    of_rule = [rng.randrange(len(parent)) for _ in range(n)]
+    if n and len(parent) > 1:
+        of_rule[rng.randrange(n)] = len(parent) - 1          # the deepest registry is never empty
+    q = lambda d: d + domain  # noqa: E731
+
+    def qkey(rule, key):
+        if rule["kind"] == "virtual":
+            d, num = key.split("|")
+            return f"{q(d)}|{num}"
+        l, r, ports = key.split("|")
+        return f"{q(l)}|{q(r)}|{ports}"
+    out = dict(case)
+    out["devices"] = [q(d) for d in case["devices"]]
+    out["ports"] = {q(d): [[p, q(nb), nbp] for p, nb, nbp in pl] for d, pl in case["ports"].items()}
+    out["rules"] = [dict(r, table={qkey(r, k): v for k, v in r["table"].items()}) for r in case["rules"]]
+    out["layout"] = {"shape": shape, "parent": parent, "short": short, "of_rule": of_rule, "domain": domain}
+    return out
+
+
 def gen_virtual_rule(rng, devs, idx, ri) -> dict:
     rule = {"kind": "virtual", "left": rng.choice(["a{n}", "b{n}", "{r:[ab]}{n}", "{x:.*}"]),
             "num": rng.choice([[0], [1, 2], [0, 3]]), "table": {}}
@@ -671,6 +721,10 @@ def run_exec_part(ctx, tbl):
     rng = ctx.rng("exec")
     n = 2000 if ctx.thorough else 260
     cases = [dict(gen_exec_case(rng, ctx.thorough), seq=True) for _ in range(n)]
+    # half of the cases run over included registries / short-name registries / names with a domain part (own random
+    # stream: the base cases are the ones generated before this family existed)
+    lrng = ctx.rng("exec_layout")
+    cases = [add_layout(lrng, c) if lrng.random() < 0.5 else c for c in cases]
     outs = core.run_impl_sharded("c15_runner.py", cases, wrap=lambda c: {"op": "exec", "cases": c},
                                  shards=min(core.NPROC, max(1, len(cases) // 10)))
     terms = [exec_term(c, o) for c, o in zip(cases, outs)]
@@ -771,6 +825,16 @@ def run_exec_part(ctx, tbl):
                                                 and r["right"] not in LITERALS for r in c["rules"]))
     stats["literal_rule_calls"] = sum(len(r["table"]) for c in cases for r in c["rules"]
                                       if r.get("left") in LITERALS or r.get("right") in LITERALS)
+    lay_hist = {}
+    for c in cases:
+        lay = c.get("layout")
+        k = "none" if not lay else (f"{lay['shape']}/short={''.join('1' if x else '0' for x in lay['short'])}/"
+                                    f"{'fqdn' if lay['domain'] else 'bare'}")
+        lay_hist[k] = lay_hist.get(k, 0) + 1
+    stats["registry_layouts"] = dict(sorted(lay_hist.items()))
+    stats["cases_short_parent_with_rules_in_included_registry_and_fqdns"] = sum(
+        1 for c in cases if c.get("layout") and c["layout"]["domain"] and c["layout"]["short"][0]
+        and any(n > 0 for n in c["layout"]["of_rule"]))
     stats["sequence_runs"] = sum(len(o.get("seq", [])) for o in outs)
     stats["sequence_runs_ok"] = sum(1 for o in outs for _, r in o.get("seq", []) if "ok" in r)
     new_bad = res2["noloss"] or res2["families"] or res2["families_seq"] or res2["history"] or res2["noleak_seq"]
